@@ -4,8 +4,8 @@ CONSTANTS
   VarChoices <- SysVarChoices
   MaxObjs = 3
   MaxMasks = 1
-  MaxConvs = 1
-  MaskSizes = {2}
+  MaxConvs = 2
+  MaskSizes = {1, 2}
   MaxFiles = 1
   MaxOff = 1
   Depth = 100
